@@ -784,21 +784,49 @@ theorem nodupNames_iff (l : List Name) : nodupNames l = true ↔ l.Nodup := by
   | nil => simp [nodupNames]
   | cons a as ih => simp [nodupNames, ih, List.nodup_cons]
 
-theorem firstDupField_none_iff (seen : List Name) (fs : List Field) :
-    firstDupField seen fs = none ↔ (fs.map (·.name)).Nodup ∧ ∀ f ∈ fs, f.name ∉ seen := by
-  induction fs generalizing seen with
-  | nil => simp [firstDupField]
-  | cons f fs ih =>
-    simp only [firstDupField, List.contains_eq_mem, decide_eq_true_eq, List.map_cons, List.nodup_cons,
-      List.mem_map, not_exists, not_and, List.mem_cons, forall_eq_or_imp]
-    by_cases h : f.name ∈ seen
+theorem firstDupName_none_iff (seen ns : List Name) :
+    firstDupName seen ns = none ↔ ns.Nodup ∧ ∀ n ∈ ns, n ∉ seen := by
+  induction ns generalizing seen with
+  | nil => simp [firstDupName]
+  | cons n ns ih =>
+    simp only [firstDupName, List.contains_eq_mem, decide_eq_true_eq, List.nodup_cons, List.mem_cons,
+      forall_eq_or_imp]
+    by_cases h : n ∈ seen
     · simp [h]
     · simp only [h, if_false, ih, List.mem_cons, not_or, not_false_eq_true, true_and]
       constructor
       · rintro ⟨h1, h2⟩
-        exact ⟨⟨fun x hx hxe => (h2 x hx).1 hxe, h1⟩, fun x hx => (h2 x hx).2⟩
+        exact ⟨⟨fun hx => (h2 n hx).1 rfl, h1⟩, fun x hx => (h2 x hx).2⟩
       · rintro ⟨⟨h1, h2⟩, h3⟩
-        exact ⟨h2, fun x hx => ⟨fun hxe => h1 x hx hxe, h3 x hx⟩⟩
+        exact ⟨h2, fun x hx => ⟨fun hxe => h1 (hxe ▸ hx), h3 x hx⟩⟩
+
+/-- The field loop of one type definition returns no error iff the field names are distinct (and new)
+and every field has distinct parameter names. -/
+theorem firstFieldErr_none_iff (tname : Name) (seen : List Name) (fs : List Field) :
+    firstFieldErr tname seen fs = none ↔
+      ((fs.map (·.name)).Nodup ∧ ∀ f ∈ fs, f.name ∉ seen) ∧ ∀ f ∈ fs, (f.args.map (·.name)).Nodup := by
+  induction fs generalizing seen with
+  | nil => simp [firstFieldErr]
+  | cons f fs ih =>
+    simp only [firstFieldErr, List.map_cons, List.nodup_cons, List.mem_cons, forall_eq_or_imp]
+    cases hp : firstDupName [] (f.args.map (·.name)) with
+    | some p =>
+      have : ¬ (f.args.map (·.name)).Nodup := by
+        intro hnd
+        have := (firstDupName_none_iff [] _).mpr ⟨hnd, by simp⟩
+        rw [hp] at this; cases this
+      simp [this]
+    | none =>
+      have hnd := ((firstDupName_none_iff [] _).mp hp).1
+      by_cases h : f.name ∈ seen
+      · simp [h]
+      · simp only [List.contains_eq_mem, decide_eq_true_eq, h, if_false, ih, List.mem_cons, not_or,
+          not_false_eq_true, true_and, hnd, List.mem_map, not_exists, not_and]
+        constructor
+        · rintro ⟨⟨h1, h2⟩, h3⟩
+          exact ⟨⟨⟨fun x hx hxe => (h2 x hx).1 hxe, h1⟩, fun x hx => (h2 x hx).2⟩, h3⟩
+        · rintro ⟨⟨⟨h1, h2⟩, h3⟩, h4⟩
+          exact ⟨⟨h2, fun x hx => ⟨fun hxe => h1 x hx hxe, h3 x hx⟩⟩, h4⟩
 
 /-- Type names and, per type, field names are distinct. -/
 def Distinct (ts : List TypeDef) : Prop :=
@@ -811,14 +839,19 @@ structure StateOf (pre : Doc) (st : LoopState) : Prop where
   scalars : st.scalars = pre.scalarNames
   vertexTypes : st.vertexTypes = pre.types
 
-/-- The part of `NoKnownSchemaTrigger` that concerns the first loop. -/
-structure LoopGuard (d : Doc) : Prop where
+/-- What the first loop of `Schema::new` requires of the definitions it has read (each violation is
+an early `return Err(..)`): at most one `schema` block, no type or scalar named like a built-in
+scalar, distinct directive names, distinct custom scalar names, distinct type names, — per type —
+distinct field names and — per field — distinct parameter names (F-C10-5).  (Before the repairs of F-16, F-20, F-21, F-21b the first five were a *guard*
+of the theorems — `LoopGuard` — because their violation was a panic.) -/
+structure LoopOK (d : Doc) : Prop where
   oneBlock : d.schemaBlocks.length ≤ 1
   typesNotBuiltin : ∀ t ∈ d.types, isBuiltin t.name = false
   scalarsNotBuiltin : ∀ n ∈ d.scalarNames, isBuiltin n = false
   directivesNodup : d.directiveNames.Nodup
   scalarsNodup : d.scalarNames.Nodup
-  noUnsupported : d.unsupportedNames = []
+  distinct : Distinct d.types
+  paramsDistinct : ∀ t ∈ d.types, ∀ f ∈ t.fields, (f.args.map (·.name)).Nodup
 
 theorem Doc.types_append (a b : Doc) : Doc.types (a ++ b) = Doc.types a ++ Doc.types b := by
   simp [Doc.types, List.filterMap_append]
@@ -837,118 +870,214 @@ theorem Distinct.of_append_left {a b : List TypeDef} (h : Distinct (a ++ b)) : D
   rw [List.map_append] at this
   exact (List.nodup_append.mp this).1
 
-theorem runLoop_spec (rest : Doc) : ∀ (pre : Doc) (st : LoopState), StateOf pre st →
-    LoopGuard (pre ++ rest) → Distinct pre.types →
-    (∃ e, runLoop st rest = .ok (.error e) ∧ ¬ Distinct (pre ++ rest).types) ∨
-    (∃ st', runLoop st rest = .ok (.ok st') ∧ StateOf (pre ++ rest) st' ∧ Distinct (pre ++ rest).types) := by
+theorem LoopOK.of_append_left {a b : Doc} (h : LoopOK (a ++ b)) : LoopOK a := by
+  obtain ⟨h1, h2, h3, h4, h5, h6, h7⟩ := h
+  rw [Doc.schemaBlocks_append, List.length_append] at h1
+  rw [Doc.types_append] at h2 h6 h7
+  rw [Doc.scalarNames_append] at h3 h5
+  rw [Doc.directiveNames_append] at h4
+  exact ⟨by omega, fun t ht => h2 t (by simp [ht]), fun n hn => h3 n (by simp [hn]),
+    (List.nodup_append.mp h4).1, (List.nodup_append.mp h5).1, h6.of_append_left,
+    fun t ht => h7 t (by simp [ht])⟩
+
+theorem LoopOK.nil : LoopOK [] :=
+  ⟨by simp [Doc.schemaBlocks], by simp [Doc.types], by simp [Doc.scalarNames],
+   by simp [Doc.directiveNames], by simp [Doc.scalarNames], ⟨by simp [Doc.types], by simp [Doc.types]⟩,
+   by simp [Doc.types]⟩
+
+/-- The first loop, on documents without `enum`/`union`/`input` definitions: it never panics; it
+returns early with an error exactly when the definitions violate `LoopOK`, and otherwise ends in the
+state that holds the document's definitions. -/
+theorem runLoop_spec (rest : Doc) : ∀ (pre : Doc) (st : LoopState), StateOf pre st → LoopOK pre →
+    rest.unsupportedNames = [] →
+    (∃ e, runLoop st rest = .ok (.error e) ∧ ¬ LoopOK (pre ++ rest)) ∨
+    (∃ st', runLoop st rest = .ok (.ok st') ∧ StateOf (pre ++ rest) st' ∧ LoopOK (pre ++ rest)) := by
   induction rest with
   | nil =>
-    intro pre st hst _ hd
-    exact .inr ⟨st, rfl, by simpa using hst, by simpa using hd⟩
+    intro pre st hst hok _
+    exact .inr ⟨st, rfl, by simpa using hst, by simpa using hok⟩
   | cons d rest ih =>
-    intro pre st hst hg hd
+    intro pre st hst hok hun
     have hassoc : pre ++ d :: rest = (pre ++ [d]) ++ rest := by simp
-    rw [hassoc] at hg ⊢
+    rw [hassoc]
+    have fail : ∀ e, loopStep st d = .ok (.error e) → ¬ LoopOK (pre ++ [d]) →
+        (∃ e, runLoop st (d :: rest) = .ok (.error e) ∧ ¬ LoopOK ((pre ++ [d]) ++ rest)) ∨
+        (∃ st', runLoop st (d :: rest) = .ok (.ok st') ∧ StateOf ((pre ++ [d]) ++ rest) st' ∧
+          LoopOK ((pre ++ [d]) ++ rest)) :=
+      fun e he hno => .inl ⟨e, by simp [runLoop, he], fun h => hno h.of_append_left⟩
+    have cont : Doc.unsupportedNames rest = [] → ∀ st', loopStep st d = .ok (.ok st') →
+        StateOf (pre ++ [d]) st' → LoopOK (pre ++ [d]) →
+        (∃ e, runLoop st (d :: rest) = .ok (.error e) ∧ ¬ LoopOK ((pre ++ [d]) ++ rest)) ∨
+        (∃ st', runLoop st (d :: rest) = .ok (.ok st') ∧ StateOf ((pre ++ [d]) ++ rest) st' ∧
+          LoopOK ((pre ++ [d]) ++ rest)) :=
+      fun hun' st' he hs ho => by simpa [runLoop, he] using ih _ _ hs ho hun'
     cases d with
     | schema q =>
-      have hb := hg.oneBlock
-      simp only [Doc.schemaBlocks_append] at hb
-      have hpre : pre.schemaBlocks = [] := by
-        cases hps : pre.schemaBlocks with
-        | nil => rfl
-        | cons x xs =>
-          have h1 : Doc.schemaBlocks [Def.schema q] = [q] := rfl
-          simp only [hps, h1, List.length_append, List.length_cons] at hb; omega
-      have hnone : st.schema = none := by rw [hst.schema, hpre]; rfl
-      have hst' : StateOf (pre ++ [Def.schema q]) { st with schema := some q } :=
-        ⟨by rw [Doc.schemaBlocks_append, hpre]; rfl,
-         by simp [Doc.directiveNames_append, hst.directives, Doc.directiveNames],
-         by simp [Doc.scalarNames_append, hst.scalars, Doc.scalarNames],
-         by simp [Doc.types_append, hst.vertexTypes, Doc.types]⟩
-      have hd' : Distinct (pre ++ [Def.schema q]).types := by simpa [Doc.types_append, Doc.types] using hd
-      simpa [runLoop, loopStep, hnone] using ih _ _ hst' hg hd'
+      have hun' : Doc.unsupportedNames rest = [] := by simpa [Doc.unsupportedNames] using hun
+      have hkeep : (∀ t ∈ Doc.types (pre ++ [Def.schema q]), isBuiltin t.name = false) ∧
+          (∀ n ∈ Doc.scalarNames (pre ++ [Def.schema q]), isBuiltin n = false) ∧
+          (Doc.directiveNames (pre ++ [Def.schema q])).Nodup ∧
+          (Doc.scalarNames (pre ++ [Def.schema q])).Nodup ∧ Distinct (Doc.types (pre ++ [Def.schema q])) ∧
+          (∀ t ∈ Doc.types (pre ++ [Def.schema q]), ∀ f ∈ t.fields, (f.args.map (·.name)).Nodup) :=
+        ⟨by simpa [Doc.types_append, Doc.types] using hok.typesNotBuiltin,
+         by simpa [Doc.scalarNames_append, Doc.scalarNames] using hok.scalarsNotBuiltin,
+         by simpa [Doc.directiveNames_append, Doc.directiveNames] using hok.directivesNodup,
+         by simpa [Doc.scalarNames_append, Doc.scalarNames] using hok.scalarsNodup,
+         by simpa [Doc.types_append, Doc.types] using hok.distinct,
+         by simpa [Doc.types_append, Doc.types] using hok.paramsDistinct⟩
+      cases hps : pre.schemaBlocks with
+      | nil =>
+        have hnone : st.schema = none := by rw [hst.schema, hps]; rfl
+        refine cont hun' { st with schema := some q } (by simp [loopStep, hnone]) ?_ ?_
+        · exact ⟨by rw [Doc.schemaBlocks_append, hps]; rfl,
+            by simp [Doc.directiveNames_append, hst.directives, Doc.directiveNames],
+            by simp [Doc.scalarNames_append, hst.scalars, Doc.scalarNames],
+            by simp [Doc.types_append, hst.vertexTypes, Doc.types]⟩
+        · exact ⟨by rw [Doc.schemaBlocks_append, hps]; exact Nat.le_refl 1, hkeep.1, hkeep.2.1,
+            hkeep.2.2.1, hkeep.2.2.2.1, hkeep.2.2.2.2.1, hkeep.2.2.2.2.2⟩
+      | cons x xs =>
+        have hsome : st.schema.isSome = true := by rw [hst.schema, hps]; rfl
+        refine fail .duplicateSchemaDefinition (by simp [loopStep, hsome]) ?_
+        intro h
+        have := h.oneBlock
+        have h1 : Doc.schemaBlocks [Def.schema q] = [q] := rfl
+        rw [Doc.schemaBlocks_append, hps, h1] at this
+        simp at this
     | directive n =>
-      have hb := hg.directivesNodup
-      simp only [Doc.directiveNames_append] at hb
-      have hn : n ∉ st.directives := by
-        rw [hst.directives]
-        have := (List.nodup_append.mp (List.nodup_append.mp hb).1)
-        simpa [Doc.directiveNames] using fun h => this.2.2 n h n (by simp [Doc.directiveNames]) rfl
-      have hst' : StateOf (pre ++ [Def.directive n]) { st with directives := st.directives ++ [n] } :=
-        ⟨by simp [Doc.schemaBlocks_append, hst.schema, Doc.schemaBlocks],
-         by simp [Doc.directiveNames_append, hst.directives, Doc.directiveNames],
-         by simp [Doc.scalarNames_append, hst.scalars, Doc.scalarNames],
-         by simp [Doc.types_append, hst.vertexTypes, Doc.types]⟩
-      have hd' : Distinct (pre ++ [Def.directive n]).types := by simpa [Doc.types_append, Doc.types] using hd
-      simpa [runLoop, loopStep, hn] using ih _ _ hst' hg hd'
+      have hun' : Doc.unsupportedNames rest = [] := by simpa [Doc.unsupportedNames] using hun
+      by_cases hn : n ∈ st.directives
+      · refine fail (.duplicateDirectiveDefinition n) (by simp [loopStep, hn]) ?_
+        intro h
+        have := h.directivesNodup
+        rw [Doc.directiveNames_append] at this
+        rw [hst.directives] at hn
+        exact (List.nodup_append.mp this).2.2 n hn n (by simp [Doc.directiveNames]) rfl
+      · refine cont hun' { st with directives := st.directives ++ [n] } (by simp [loopStep, hn]) ?_ ?_
+        · exact ⟨by simp [Doc.schemaBlocks_append, hst.schema, Doc.schemaBlocks],
+            by simp [Doc.directiveNames_append, hst.directives, Doc.directiveNames],
+            by simp [Doc.scalarNames_append, hst.scalars, Doc.scalarNames],
+            by simp [Doc.types_append, hst.vertexTypes, Doc.types]⟩
+        · rw [hst.directives] at hn
+          exact ⟨by simpa [Doc.schemaBlocks_append, Doc.schemaBlocks] using hok.oneBlock,
+            by simpa [Doc.types_append, Doc.types] using hok.typesNotBuiltin,
+            by simpa [Doc.scalarNames_append, Doc.scalarNames] using hok.scalarsNotBuiltin,
+            by
+              rw [Doc.directiveNames_append, List.nodup_append]
+              refine ⟨hok.directivesNodup, by simp [Doc.directiveNames], ?_⟩
+              intro a ha b hb hab
+              simp [Doc.directiveNames] at hb; subst hb; subst hab; exact hn ha,
+            by simpa [Doc.scalarNames_append, Doc.scalarNames] using hok.scalarsNodup,
+            by simpa [Doc.types_append, Doc.types] using hok.distinct,
+            by simpa [Doc.types_append, Doc.types] using hok.paramsDistinct⟩
     | scalar n =>
-      have hb := hg.scalarsNodup
-      simp only [Doc.scalarNames_append] at hb
-      have hn : n ∉ st.scalars := by
-        rw [hst.scalars]
-        have := (List.nodup_append.mp (List.nodup_append.mp hb).1)
-        simpa [Doc.scalarNames] using fun h => this.2.2 n h n (by simp [Doc.scalarNames]) rfl
-      have hbi : isBuiltin n = false :=
-        hg.scalarsNotBuiltin n (by simp [Doc.scalarNames_append, Doc.scalarNames])
-      have hst' : StateOf (pre ++ [Def.scalar n]) { st with scalars := st.scalars ++ [n] } :=
-        ⟨by simp [Doc.schemaBlocks_append, hst.schema, Doc.schemaBlocks],
-         by simp [Doc.directiveNames_append, hst.directives, Doc.directiveNames],
-         by simp [Doc.scalarNames_append, hst.scalars, Doc.scalarNames],
-         by simp [Doc.types_append, hst.vertexTypes, Doc.types]⟩
-      have hd' : Distinct (pre ++ [Def.scalar n]).types := by simpa [Doc.types_append, Doc.types] using hd
-      simpa [runLoop, loopStep, hn, hbi] using ih _ _ hst' hg hd'
+      have hun' : Doc.unsupportedNames rest = [] := by simpa [Doc.unsupportedNames] using hun
+      by_cases hbi : isBuiltin n = true
+      · refine fail (.builtinScalarRedefinition n) (by simp [loopStep, hbi]) ?_
+        intro h
+        have := h.scalarsNotBuiltin n (by simp [Doc.scalarNames_append, Doc.scalarNames])
+        rw [hbi] at this; cases this
+      · have hbi' : isBuiltin n = false := by simpa using hbi
+        by_cases hn : n ∈ st.scalars
+        · refine fail (.duplicateScalarDefinition n) (by simp [loopStep, hbi', hn]) ?_
+          intro h
+          have := h.scalarsNodup
+          rw [Doc.scalarNames_append] at this
+          rw [hst.scalars] at hn
+          exact (List.nodup_append.mp this).2.2 n hn n (by simp [Doc.scalarNames]) rfl
+        · refine cont hun' { st with scalars := st.scalars ++ [n] } (by simp [loopStep, hbi', hn]) ?_ ?_
+          · exact ⟨by simp [Doc.schemaBlocks_append, hst.schema, Doc.schemaBlocks],
+              by simp [Doc.directiveNames_append, hst.directives, Doc.directiveNames],
+              by simp [Doc.scalarNames_append, hst.scalars, Doc.scalarNames],
+              by simp [Doc.types_append, hst.vertexTypes, Doc.types]⟩
+          · rw [hst.scalars] at hn
+            exact ⟨by simpa [Doc.schemaBlocks_append, Doc.schemaBlocks] using hok.oneBlock,
+              by simpa [Doc.types_append, Doc.types] using hok.typesNotBuiltin,
+              by
+                intro m hm
+                rw [Doc.scalarNames_append] at hm
+                rcases List.mem_append.mp hm with hm | hm
+                · exact hok.scalarsNotBuiltin m hm
+                · simp [Doc.scalarNames] at hm; subst hm; exact hbi',
+              by simpa [Doc.directiveNames_append, Doc.directiveNames] using hok.directivesNodup,
+              by
+                rw [Doc.scalarNames_append, List.nodup_append]
+                refine ⟨hok.scalarsNodup, by simp [Doc.scalarNames], ?_⟩
+                intro a ha b hb hab
+                simp [Doc.scalarNames] at hb; subst hb; subst hab; exact hn ha,
+              by simpa [Doc.types_append, Doc.types] using hok.distinct,
+              by simpa [Doc.types_append, Doc.types] using hok.paramsDistinct⟩
     | unsupported n =>
-      have := hg.noUnsupported
-      simp [Doc.unsupportedNames_append, Doc.unsupportedNames] at this
+      simp [Doc.unsupportedNames] at hun
     | type t =>
-      have hbi : isBuiltin t.name = false :=
-        hg.typesNotBuiltin t (by simp [Doc.types_append, Doc.types])
-      have htypes : Doc.types ((pre ++ [Def.type t]) ++ rest) = Doc.types pre ++ t :: Doc.types rest := by
-        simp [Doc.types_append, Doc.types]
-      by_cases hdup : (findType st.vertexTypes t.name).isSome = true
-      · refine .inl ⟨.duplicateTypeDefinition t.name, by simp [runLoop, loopStep, hbi, hdup], ?_⟩
-        rw [htypes]
-        intro hdist
-        rw [hst.vertexTypes, findType_isSome_iff] at hdup
-        obtain ⟨d, hd1, hd2⟩ := hdup
-        have := hdist.1
-        simp only [List.map_append, List.map_cons] at this
-        have := (List.nodup_append.mp this).2.2 d.name (by simp; exact ⟨d, hd1, rfl⟩) t.name (by simp)
-        exact this hd2
-      · cases hf : firstDupField [] t.fields with
-        | some f =>
-          refine .inl ⟨.duplicateFieldDefinition t.name f, by simp [runLoop, loopStep, hbi, hdup, hf], ?_⟩
-          rw [htypes]
-          intro hdist
-          have := hdist.2 t (by simp)
-          have h2 := (firstDupField_none_iff [] t.fields).mpr ⟨this, by simp⟩
-          rw [hf] at h2; cases h2
-        | none =>
-          have hfn := (firstDupField_none_iff [] t.fields).mp hf
-          have hst' : StateOf (pre ++ [Def.type t]) { st with vertexTypes := st.vertexTypes ++ [t] } :=
-            ⟨by simp [Doc.schemaBlocks_append, hst.schema, Doc.schemaBlocks],
-             by simp [Doc.directiveNames_append, hst.directives, Doc.directiveNames],
-             by simp [Doc.scalarNames_append, hst.scalars, Doc.scalarNames],
-             by simp [Doc.types_append, hst.vertexTypes, Doc.types]⟩
-          have hd' : Distinct (pre ++ [Def.type t]).types := by
-            have hty : Doc.types (pre ++ [Def.type t]) = Doc.types pre ++ [t] := by
-              rw [Doc.types_append]; rfl
-            rw [hty]
-            rw [hst.vertexTypes, findType_isSome_iff] at hdup
-            refine ⟨?_, ?_⟩
-            · rw [List.map_append, List.nodup_append]
-              refine ⟨hd.1, by simp, ?_⟩
-              intro a ha b hb
-              simp at hb; subst hb
-              intro hab
-              simp only [List.mem_map] at ha
-              obtain ⟨x, hx, hxn⟩ := ha
-              exact hdup ⟨x, hx, by rw [hxn, hab]⟩
-            · intro x hx
-              rcases List.mem_append.mp hx with hx | hx
-              · exact hd.2 x hx
-              · simp at hx; subst hx; exact hfn.1
-          simpa [runLoop, loopStep, hbi, hdup, hf] using ih _ _ hst' hg hd'
+      have hun' : Doc.unsupportedNames rest = [] := by simpa [Doc.unsupportedNames] using hun
+      have hty : Doc.types (pre ++ [Def.type t]) = Doc.types pre ++ [t] := by
+        rw [Doc.types_append]; rfl
+      by_cases hbi : isBuiltin t.name = true
+      · refine fail (.builtinScalarRedefinition t.name) (by simp [loopStep, hbi]) ?_
+        intro h
+        have := h.typesNotBuiltin t (by simp [hty])
+        rw [hbi] at this; cases this
+      · have hbi' : isBuiltin t.name = false := by simpa using hbi
+        by_cases hdup : (findType st.vertexTypes t.name).isSome = true
+        · refine fail (.duplicateTypeDefinition t.name) (by simp [loopStep, hbi', hdup]) ?_
+          intro h
+          have hdist := h.distinct
+          rw [hty] at hdist
+          rw [hst.vertexTypes, findType_isSome_iff] at hdup
+          obtain ⟨d, hd1, hd2⟩ := hdup
+          have := hdist.1
+          simp only [List.map_append, List.map_cons] at this
+          have := (List.nodup_append.mp this).2.2 d.name (by simp; exact ⟨d, hd1, rfl⟩) t.name (by simp)
+          exact this hd2
+        · cases hf : firstFieldErr t.name [] t.fields with
+          | some e =>
+            refine fail e (by simp [loopStep, hbi', hdup, hf]) ?_
+            intro h
+            have hdist := h.distinct
+            have hpar := h.paramsDistinct
+            rw [hty] at hdist hpar
+            have h2 := (firstFieldErr_none_iff t.name [] t.fields).mpr
+              ⟨⟨hdist.2 t (by simp), by simp⟩, hpar t (by simp)⟩
+            rw [hf] at h2; cases h2
+          | none =>
+            have hfn := (firstFieldErr_none_iff t.name [] t.fields).mp hf
+            refine cont hun' { st with vertexTypes := st.vertexTypes ++ [t] }
+              (by simp [loopStep, hbi', hdup, hf]) ?_ ?_
+            · exact ⟨by simp [Doc.schemaBlocks_append, hst.schema, Doc.schemaBlocks],
+                by simp [Doc.directiveNames_append, hst.directives, Doc.directiveNames],
+                by simp [Doc.scalarNames_append, hst.scalars, Doc.scalarNames],
+                by simp [Doc.types_append, hst.vertexTypes, Doc.types]⟩
+            · have hd := hok.distinct
+              refine ⟨by simpa [Doc.schemaBlocks_append, Doc.schemaBlocks] using hok.oneBlock, ?_,
+                by simpa [Doc.scalarNames_append, Doc.scalarNames] using hok.scalarsNotBuiltin,
+                by simpa [Doc.directiveNames_append, Doc.directiveNames] using hok.directivesNodup,
+                by simpa [Doc.scalarNames_append, Doc.scalarNames] using hok.scalarsNodup, ?_, ?_⟩
+              · intro x hx
+                rw [hty] at hx
+                rcases List.mem_append.mp hx with hx | hx
+                · exact hok.typesNotBuiltin x hx
+                · simp at hx; subst hx; exact hbi'
+              rotate_left
+              · intro x hx
+                rw [hty] at hx
+                rcases List.mem_append.mp hx with hx | hx
+                · exact hok.paramsDistinct x hx
+                · simp at hx; subst hx; exact hfn.2
+              · rw [hty]
+                rw [hst.vertexTypes, findType_isSome_iff] at hdup
+                refine ⟨?_, ?_⟩
+                · rw [List.map_append, List.nodup_append]
+                  refine ⟨hd.1, by simp, ?_⟩
+                  intro a ha b hb
+                  simp at hb; subst hb
+                  intro hab
+                  simp only [List.mem_map] at ha
+                  obtain ⟨x, hx, hxn⟩ := ha
+                  exact hdup ⟨x, hx, by rw [hxn, hab]⟩
+                · intro x hx
+                  rcases List.mem_append.mp hx with hx | hx
+                  · exact hd.2 x hx
+                  · simp at hx; subst hx; exact hfn.1.1
 
 
 end TF.SchemaDoc
